@@ -668,6 +668,61 @@ def shrink_violation(ctx, U, fresh, f1_fixed, v):
         v['expected'], v['observed'] = hit[0]['expected'], hit[0]['observed']
 
 
+def object_reuse_checks(ctx):
+    """State that could travel between OBJECTS rather than through one library's history: the constructors' default
+    arguments, and a caller's molecule object handed in more than once."""
+    import warnings
+    from rdkit import Chem
+    warnings.filterwarnings('ignore')
+    import pgradd.ThermoChem  # noqa
+    from pgradd.GroupAdd.Library import GroupLibrary
+    from pgradd.GroupAdd.Scheme import GroupAdditivityScheme
+    # (1) a directly constructed library merged with data-bearing libraries; libraries and schemes constructed afterwards
+    #     with default arguments must be empty
+    src = GroupLibrary.Load('GRWSurface2018')
+    a = GroupLibrary(src.scheme)
+    a.Update(src)
+    b = GroupLibrary(src.scheme)
+    s2 = GroupAdditivityScheme()
+    ctx.case(('defaults',), None)
+    ctx.count('default_argument_checks')
+    leaked = {'uq_keys': sorted(b.uq_contents), 'groups': len(b.contents), 'patterns': len(s2.patterns), 'remaps': len(s2.remaps),
+              'other_descriptors': len(s2.other_descriptors)}
+    if any(leaked.values()):
+        ctx.violation('an object constructed with default arguments holds data put into ANOTHER object earlier',
+                      {'steps': ['a = GroupLibrary(scheme)', "a.Update(Load('GRWSurface2018'))", 'b = GroupLibrary(scheme)', 'GroupAdditivityScheme()']},
+                      expected='empty', observed=leaked)
+    # (2) the same molecule object decomposed twice, by one library and then by another: each result equals the result for
+    #     the SMILES; the caller's object is not altered by a decomposition
+    libs = [src, GroupLibrary.Load('BensonGA')]
+    for smi in ['O=C=O', 'CC', 'C=C', 'O=C([Pt])[Pt]', '[H][H]', 'CC(=O)O']:
+        for explicit in (False, True):
+            m = Chem.MolFromSmiles(smi)
+            if m is None:
+                continue
+            if explicit:
+                m = Chem.AddHs(m)
+            before = Chem.MolToSmiles(m), m.GetNumAtoms(), [sorted(list(a_.GetPropNames())) for a_ in m.GetAtoms()]
+            for lib in libs + libs[:1]:
+                def run_one(x):
+                    try:
+                        return {'ok': {str(k): v for k, v in lib.GetDescriptors(x).items()}}
+                    except Exception as e:
+                        return {'err': type(e).__name__}
+                want = run_one(smi)
+                got = run_one(m)
+                ctx.case(('molobj', smi, explicit, id(lib)), None)
+                ctx.count('molecule_object_reuse')
+                if got != want:
+                    ctx.violation('the descriptors of a molecule object depend on what was done with that object before',
+                                  {'smiles': smi, 'explicit_hydrogens': explicit, 'library_path': lib.path}, expected=want, observed=got)
+                    break
+            after = Chem.MolToSmiles(m), m.GetNumAtoms(), [sorted(list(a_.GetPropNames())) for a_ in m.GetAtoms()]
+            if after != before:
+                ctx.violation("a decomposition altered the caller's molecule object", {'smiles': smi, 'explicit_hydrogens': explicit},
+                              expected=str(before)[:200], observed=str(after)[:200])
+
+
 def run(ctx):
     rng = ctx.rng
     wk.quiet()
@@ -681,6 +736,7 @@ def run(ctx):
     for fname, rec in common.load_corpus('C15'):
         ctx.count('corpus')
         replay(ctx, rec, fresh=fresh, U=U, f1_fixed=f1_fixed)
+    object_reuse_checks(ctx)
     n_hist = ctx.n(int(os.environ.get('C15_N', 32)), 400)
     block = 40
     # per run (seed) a sub-universe, so that fresh results are shared between histories; the thorough tier uses everything
